@@ -93,7 +93,11 @@ def termination_claimed(check_name, params):
     from wcmatch import glob as G
     flags = params[1] if len(params) > 1 and isinstance(params[1], int) else 0
     pats = params[0]
-    text = ' '.join(pats) if isinstance(pats, (list, tuple)) else str(pats)
+    if isinstance(pats, tuple) and pats and isinstance(pats[0], tuple):
+        from engine import gen
+        text = gen.render_path(pats)          # a generator AST
+    else:
+        text = ' '.join(pats) if isinstance(pats, (list, tuple)) else str(pats)
     if check_name.startswith('c14'):
         from wcmatch import wcmatch as W
         return not (flags & W.SYMLINKS)
@@ -118,4 +122,54 @@ def c04_classify(params, tree, res):
     if text and (text.endswith('**/') or text.endswith('***/')) and not res.get('only_glob') and res.get('only_match'):
         if res.get('only_match_nondir') == res['only_match']:
             return 'final-globstar-dir-pattern-accepts-non-directory'
+    return None
+
+
+# ---------------------------------------------------------------------------------------------------------
+# C05: glob returns exactly the paths the pattern denotes (reference walk oracle)
+
+def glob_flags_info(flags):
+    from wcmatch import glob as G
+    return dict(globstar=bool(flags & G.GLOBSTAR), globstarlong=bool(flags & G.GLOBSTARLONG), dot=bool(flags & G.DOTGLOB),
+                ci=bool(flags & G.IGNORECASE) and not flags & G.CASE, scandotdir=bool(flags & G.SCANDOTDIR), matchbase=bool(flags & G.MATCHBASE),
+                follow=bool(flags & G.FOLLOW), nodir=bool(flags & G.NODIR))
+
+
+def c05(root, items, flags, slots):
+    from wcmatch import glob as G
+    from engine import gen, refwalk
+    text = gen.render_path(items)
+    R = _call(G.glob, text, flags=flags, root_dir=root)
+    if isinstance(R, str):
+        return {'viol': [f'glob raised {R}'], 'obs': R}
+    if any(r.count('/') > 20 for r in R):
+        return {'viol': [], 'obs': None, 'eloop': True}
+    ref = refwalk.ref_glob(root, items, **glob_flags_info(flags))
+    if ref is None:
+        return {'viol': [], 'obs': sorted(R)}
+    must, may = ref
+    RS = {strip_sep(r) for r in R}
+    if flags & G.IGNORECASE and not flags & G.CASE:
+        RS, must, may = {x.lower() for x in RS}, {x.lower() for x in must}, {x.lower() for x in may}
+    viol = []
+    missing = sorted(must - RS)
+    extra = sorted(RS - may)
+    if missing:
+        viol.append(f'existing matches missing from glob({text!r}): {missing}')
+    if extra:
+        viol.append(f'glob({text!r}) returned paths the pattern does not denote: {extra}')
+    return {'viol': viol, 'obs': sorted(R), 'missing': missing, 'extra': extra}
+
+
+def c05_classify(params, tree, res):
+    from engine import regions
+    items, flags = params
+    fi = dict(glob_flags_info(flags), path=True, nodotdir=False)
+    if res.get('extra') and not res.get('missing'):
+        if regions.pat_nullable_start('gl', items, fi) and all(x.rsplit('/', 1)[-1].startswith('.') for x in res['extra']):
+            # the walker's per-segment matcher lets a wildcard after an empty-matching first node consume a leading dot (C03 finding)
+            return 'unguarded-wildcard-after-nullable-start'
+        if regions.pat_nullable_segment('gl', items, fi) and fi['matchbase']:
+            # a segment pattern that can match the empty string, compiled with the implicit MATCHBASE prefix, matches every name (C02 finding)
+            return 'empty-segment-by-nullable-group'
     return None
